@@ -1,4 +1,4 @@
 SPECIFICATION TSpec
-INVARIANTS C10 C11Cmp C11Sort
+INVARIANTS C10 C11Cmp C11Sort C11Str
 POSTCONDITION Accepted
 CHECK_DEADLOCK FALSE
